@@ -1,1 +1,21 @@
-//! Hooks for property C29.
+//! Hooks for property C29: the private price adjustment of `states/oracle/mod.rs`.
+use anchor_lang::prelude::*;
+use gmsol_utils::{price::Decimal, token_config::FeedConfig, Price};
+
+use crate::states::oracle::verif_hooks_c29 as h;
+
+pub fn try_adjust_price_with_max_deviation_factor(
+    factor: &u128,
+    price: &Price,
+    ref_price: Option<&Decimal>,
+) -> Option<Price> {
+    h::try_adjust_price_with_max_deviation_factor(factor, price, ref_price)
+}
+
+pub fn try_adjust_price(
+    feed_config: &FeedConfig,
+    price: Price,
+    ref_price: Option<Decimal>,
+) -> Result<(Price, bool)> {
+    h::try_adjust_price(feed_config, price, ref_price)
+}
